@@ -26,7 +26,7 @@ MARK = 'Mqxyz'
 MARK2 = 'Mqabc'
 EN = chr(8211)
 
-PAYLOADS = ['caf\u00e9 \u00fc<x>', '&lt-width;', '&amp-height;', '<a href="x?a=1&b=2">t</a>', 'a < b && c > d', 'x\U0001d518y<', '<b>x</b>', '</p>', '<script>alert(1)</script>', '&amp;', '&lt;', '&#60;', '&x-width;', '" onmouseover="x',
+PAYLOADS = ['caf\u00e9 \u00fc<x>', '&fig-width;&px;', 'e\u0301x\u212a\u2126', '\u0338slashed', '&lt-width;', '&amp-height;', '<a href="x?a=1&b=2">t</a>', 'a < b && c > d', 'x\U0001d518y<', '<b>x</b>', '</p>', '<script>alert(1)</script>', '&amp;', '&lt;', '&#60;', '&x-width;', '" onmouseover="x',
             ']]>', '<!--', 'a<b>c', '\u00e9\u20ac', 'u\u2028v', '&copy', '<a href="x">y</a>']
 
 
@@ -61,6 +61,8 @@ POSITIONS = {
     'cell': ('\\begin{{tabular}}{{ll}}a&{X}\\\\ c&d\\end{{tabular}}', False),
     'verbatim': ('\\begin{{verbatim}}\nV {X}\n\\end{{verbatim}}', True),
     'verb': ('v \\verb|{X}| w', True),
+    'verbstar': ('v \\verb*|{X}| w', True),
+    'verbatimstar': ('\\begin{{verbatim*}}\nV {X}\n\\end{{verbatim*}}', True),
     'quote': ('\\begin{{quote}}Q {X}\\end{{quote}}', False),
     'thmtitle': ('\\begin{{zzthm}}[{{H {X}}}]t\\end{{zzthm}}', False),
     'emph': ('e \\emph{{E {X}}} f', False),
@@ -87,7 +89,7 @@ CONFIGS = {
 def document(fills):
     """fills: {position: text to insert (already LaTeX-spelled)}; unfilled positions are absent"""
     body = []
-    order = ['doctitle', 'afterraw', 'citenote', 'biblabel', 'para', 'sectitle', 'subtitle', 'parenttitle', 'caption', 'footnote', 'item', 'term', 'cell', 'verbatim', 'verb',
+    order = ['doctitle', 'afterraw', 'citenote', 'biblabel', 'para', 'sectitle', 'subtitle', 'parenttitle', 'caption', 'footnote', 'item', 'term', 'cell', 'verbatim', 'verb', 'verbstar', 'verbatimstar',
              'quote', 'thmtitle', 'emph']
     for p in order:
         if p in fills:
